@@ -179,6 +179,10 @@ pub struct Hooks {
     pub terminated: fn(),
     /// A read on an empty descriptor would block; true = bytes arrived meanwhile.
     pub block: fn(crate::c_int) -> bool,
+    /// A write without MSG_DONTWAIT / O_NONBLOCK on a full descriptor: the caller
+    /// sleeps until somebody drains it.  The model cuts the path afterwards, so a
+    /// harness whose subject is "never blocks" asserts here.
+    pub wblock: fn(crate::c_int),
     /// The running code spins/yields a second time although nobody else can run
     /// (SEQ / NEST): it waits for another thread.  The harness asserts here.
     pub stuck: fn(),
@@ -202,6 +206,7 @@ fn no_block(_: crate::c_int) -> bool {
     false
 }
 fn no_stuck() {}
+fn no_wblock(_: crate::c_int) {}
 fn no_state_change(_: u8) {}
 fn no_lock_event(_: usize) {}
 pub static mut HOOKS: Hooks = Hooks {
@@ -209,6 +214,7 @@ pub static mut HOOKS: Hooks = Hooks {
     deliver: no_deliver,
     terminated: no_terminated,
     block: no_block,
+    wblock: no_wblock,
     stuck: no_stuck,
     state_change: no_state_change,
     on_lock: no_lock_event,
